@@ -26,6 +26,7 @@ type pmtPipe struct {
 	cond   *sync.Cond
 	buf    []byte
 	closed bool
+	waiters int  // readers currently blocked in Read
 	held   bool // end-of-stream is not reported to readers before release() (scripted "the read error surfaces now")
 }
 
@@ -46,7 +47,9 @@ func (p *pmtPipe) Read(b []byte) (int, error) {
 	p.mu.Lock()
 	defer p.mu.Unlock()
 	for len(p.buf) == 0 && (!p.closed || p.held) {
+		p.waiters++
 		p.cond.Wait()
+		p.waiters--
 	}
 	if len(p.buf) == 0 {
 		return 0, io.EOF
@@ -182,6 +185,22 @@ func (c *pmtConn) releaseReadErrors() {
 	for _, p := range pipes {
 		p.release()
 	}
+}
+
+// blockedReaders: number of pipes of this connection on which a reader is blocked in Read.
+func (c *pmtConn) blockedReaders() int {
+	c.sh.mu.Lock()
+	pipes := append([]*pmtPipe{}, c.sh.pipes...)
+	c.sh.mu.Unlock()
+	n := 0
+	for _, p := range pipes {
+		p.mu.Lock()
+		if p.waiters > 0 {
+			n++
+		}
+		p.mu.Unlock()
+	}
+	return n
 }
 
 func (c *pmtConn) isClosed() bool {
